@@ -1845,7 +1845,9 @@ class Network(Cached):
 
         :rtype: 1d numpy array [node] of floats between 0 and 1
         """
-        C = np.array(self.graph.transitivity_local_undirected())
+        #  (reciprocal links of a directed network count as one link)
+        graph = self.graph.as_undirected() if self.directed else self.graph
+        C = np.array(graph.transitivity_local_undirected())
         C[np.isnan(C)] = 0
         return C
 
